@@ -78,6 +78,29 @@ theorem C09_conservation {α : Type} (ops : List (Op α)) (hwf : ∀ o ∈ ops, 
        clearedOf (runOps init ops).2 ++ (runOps init ops).1.buf.map Prod.snd) :=
   runOps_conservation ops hwf
 
+/-- **A redelivered copy of a message that is still waiting is reported duplicate.** In every
+reachable state - whatever mixture of `process` / `drain` / `reset` / `set_next_sequence` calls led
+to it, drained or not, the expected number wrapped past 255 since buffering began or not - if a
+message that arrived with number `seq` is still in the buffer, then `process seq` neither releases
+the new copy nor files it beside the first one: the answer is `DuplicateMessageSequence` and the
+state is unchanged (so the number is not released twice and the waiting message is not stranded). -/
+theorem C09_copy_of_waiting_is_duplicate {α : Type} (ops : List (Op α)) (hwf : ∀ o ∈ ops, o.WF)
+    (seq : Nat) (p q : α) (k : Nat) (hw : (k, (seq, q)) ∈ (runOps init ops).1.buf) :
+    stepOp (runOps init ops).1 (Op.proc seq p) = ((runOps init ops).1, Ev.dup (seq, p)) := by
+  obtain ⟨_, hm⟩ := C09_reachable_inv ops hwf
+  cases hmode : (runOps init ops).1.mode with
+  | good =>
+    rw [hmode] at hm
+    simp [hm] at hw
+  | reseq off =>
+    rw [hmode] at hm
+    obtain ⟨_, _, _, hkeys⟩ := hm
+    have hk := (hkeys _ hw).2
+    have hh : hasKey (wsub seq off) (runOps init ops).1.buf = true := (hasKey_iff _ _).2 ⟨_, hw, hk⟩
+    by_cases hnx : (runOps init ops).1.next = seq
+    · simp [stepOp, process, hnx, hmode, hh]
+    · simp [stepOp, process, hnx, hmode, hh]
+
 /-! ### Non-vacuity: concrete runs that meet the hypotheses (these are tests, not the claim) -/
 
 /-- a wrapping run: start 250, twenty messages, reversed arrival order -/
@@ -95,5 +118,12 @@ example : (feed ({ buf := [], next := 254, mode := .good } : St (Nat × Nat))
 
 /-- a reachable state that is in `ReSequencing` with a non-empty buffer -/
 example : (runOps (init : St (Nat × Nat)) [Op.proc 2 7, Op.proc 1 6]).1.buf.length = 2 := by decide
+
+/-- the hypothesis of `C09_copy_of_waiting_is_duplicate` is met after `set_next_sequence(255); process(1);
+process(255); process(0)` (no drain): number 1 is expected and still waiting -/
+example : (2, ((1 : Nat), (7 : Nat))) ∈ (runOps (init : St (Nat × Nat))
+    [Op.setNext 255, Op.proc 1 7, Op.proc 255 8, Op.proc 0 9]).1.buf ∧
+    (runOps (init : St (Nat × Nat)) [Op.setNext 255, Op.proc 1 7, Op.proc 255 8, Op.proc 0 9]).1.next = 1 := by
+  decide
 
 end Srad.Reseq
